@@ -40,5 +40,11 @@ func Run(c *common.Ctx) error {
 		}
 		h.Close()
 	}
+	cfr := c.Cases("cases_c09r", hist.CoqHeader, "list (N * N) * bool * N * list N", "mismatches_retention")
+	for i := 0; i < c.Pick(1, 5); i++ {
+		if err := replicaRetention(c, c.Rng.Fork(), cfr); err != nil {
+			return err
+		}
+	}
 	return nil
 }
